@@ -118,7 +118,16 @@ def _nominal_and_modifiers_from_spec(modifier_set, config, spec, batch_size):
     helper = {}
     _keys_seen = set()
     for c in spec['channels']:
+        if c['name'] in helper:
+            raise exceptions.InvalidModel(
+                f"Multiple channels named {c['name']} were found. Channel names must be unique."
+            )
+        helper[c['name']] = {}
         for s in c['samples']:
+            if s['name'] in helper[c['name']]:
+                raise exceptions.InvalidModel(
+                    f"Multiple samples named {s['name']} were found in {c['name']} channel. Sample names must be unique within a channel."
+                )
             moddict = {}
             for x in s['modifiers']:
                 if x['type'] not in modifier_set:
@@ -126,6 +135,10 @@ def _nominal_and_modifiers_from_spec(modifier_set, config, spec, batch_size):
                         f'{x["type"]} not among {list(modifier_set)}'
                     )
                 key = f"{x['type']}/{x['name']}"
+                if key in moddict:
+                    raise exceptions.InvalidModel(
+                        f"Modifier {key} is defined more than once on {s['name']} sample in {c['name']} channel."
+                    )
                 # check if the modifier to be built is allowed to be shared
                 if not modifiers_builders[x['type']].is_shared and (
                     key in _keys_seen or key in moddict
